@@ -99,6 +99,8 @@ type FnCtx struct {
 	errInit map[string]bool
 	ctVals map[string]Val
 	canonDone map[string]bool
+	condFresh map[string]*smt.Term
+	preSorts map[string]smt.Sort
 	inline *inlineCtx
 	parentCtx *FnCtx
 	recoverCalled *smt.Term
@@ -192,6 +194,7 @@ func (fc *FnCtx) reset(dry bool) {
 	fc.errInit = map[string]bool{}
 	fc.ctVals = map[string]Val{}
 	fc.canonDone = map[string]bool{}
+	fc.condFresh = map[string]*smt.Term{}
 	fc.recoverCalled = smt.False
 	fc.callPanicked = map[string]*smt.Term{}
 	fc.callPanicVal = map[string]*smt.Term{}
@@ -245,7 +248,16 @@ func (fc *FnCtx) Generate() (err error) {
 			}
 		}
 	}
+	allSorts := map[string]smt.Sort{}
+	for k, v := range fc.heapSorts {
+		allSorts[k] = v
+	}
+	refKeys := fc.refKeys
 	fc.reset(false)
+	fc.preSorts = allSorts
+	for k := range refKeys {
+		fc.refKeys[k] = true
+	}
 	fc.run()
 	return nil
 }
@@ -380,9 +392,9 @@ func (fc *FnCtx) getHeap(st *State, key string, valSort smt.Sort) *smt.Term {
 		sel := smt.Select(t, r)
 		switch {
 		case vs == smt.Slice:
-			fc.S.Assert(smt.Forall([]*smt.Term{r}, smt.Ge(smt.SlArr(sel), smt.IntLit(0)), []*smt.Term{sel}), "entry heap holds no fresh references")
+			fc.S.Assert(smt.Forall([]*smt.Term{r}, smt.Implies(smt.Ge(r, smt.IntLit(0)), smt.Ge(smt.SlArr(sel), smt.IntLit(0))), []*smt.Term{sel}), "entry heap: existing objects hold no fresh references")
 		case vs == smt.Int && fc.refKeys[key]:
-			fc.S.Assert(smt.Forall([]*smt.Term{r}, smt.Ge(sel, smt.IntLit(0)), []*smt.Term{sel}), "entry heap holds no fresh references")
+			fc.S.Assert(smt.Forall([]*smt.Term{r}, smt.Implies(smt.Ge(r, smt.IntLit(0)), smt.Ge(sel, smt.IntLit(0))), []*smt.Term{sel}), "entry heap: existing objects hold no fresh references")
 		}
 	}
 	fc.entry.H[key] = t
@@ -547,6 +559,9 @@ func (fc *FnCtx) fieldKey(structT types.Type, idx int) (key string, ft types.Typ
 	name := fc.P.TypeStr(structT, nil)
 	if _, isNamed := structT.(*types.Named); !isNamed {
 		name = "struct@" + fc.pos(f.Pos())
+	} else if cn, ok := fc.P.canonStruct[st]; ok {
+		// named types sharing one struct definition (type B A) are views of the same memory
+		name = cn
 	}
 	key = name + "." + f.Name()
 	if k := kindOf(f.Type()); (k == KRef || k == KPtr) && fc.refKeys != nil {
@@ -1017,6 +1032,14 @@ func (fc *FnCtx) run() {
 		}
 		fc.vals[fv] = v
 		fc.params[fv.Name()] = v
+	}
+	// every heap map the function touches exists from the start (known from the dry run),
+	// so that objects allocated later can be given all their fields at allocation
+	for _, k := range smt.SortedKeys(fc.preSorts) {
+		as := fc.preSorts[k]
+		if _, vs, ok := smt.ArrParts(as); ok {
+			fc.getHeap(st0, k, vs)
+		}
 	}
 	fc.globalFacts()
 	// requires
